@@ -16,7 +16,7 @@ def collect(h):
     # role expansion in IsOperationAllowed: does the loop range over the very slice it appends to?
     rel = "pkg/appdef/acl/provide.go"
     body = h.func_body(rel, r"^func IsOperationAllowed\(", "IsOperationAllowed")
-    m = re.search(r"for\s+_\s*,\s*(\w+)\s*:=\s*range\s+([^{]+?)\s*\{\s*\n\s*role\s*:=\s*appdef\.Role\(ws\.Type,\s*\1\)", body)
+    m = re.search(r"for\s+_\s*,\s*(\w+)\s*:=\s*range\s+([^{]+?)\s*\{[^\n]*\n\s*role\s*:=\s*appdef\.Role\(ws\.Type,\s*\1\)", body)
     if not m or "RecursiveRoleAncestors(role, ws)" not in body:
         raise h.Missing(f"{rel}: cannot locate the role expansion loop of IsOperationAllowed")
     ranged = m.group(2).strip()
@@ -25,6 +25,26 @@ def collect(h):
         raise h.Missing(f"{rel}: cannot locate the Add of the expanded roles")
     items.append(("acl_roles_loop_aliased", "bool", "true" if ranged == tgt.group(1) else "false",
                   rel + " IsOperationAllowed: `range " + ranged + "` while adding to `" + tgt.group(1) + "`"))
+    # checkOperationOnTypeForRoles, Allow branch with a field list: are the rule's fields checked against the resource?
+    rel = "pkg/appdef/acl/impl.go"
+    body = h.func_body(rel, r"^func checkOperationOnTypeForRoles\(", "checkOperationOnTypeForRoles")
+    m = re.search(r"case appdef\.PolicyKind_Allow:(.*?)case appdef\.PolicyKind_Deny:", body, re.S)
+    if not m or not re.search(r"allowedFields\[f\]\s*=\s*true", m.group(1)):
+        raise h.Missing(f"{rel}: cannot locate the Allow branch of checkOperationOnTypeForRoles")
+    allow = m.group(1)
+    chk = bool(re.search(r"if\s+resFields\.Field\(f\)\s*!=\s*nil\s*\{[^\n]*\s*allowedFields\[f\]\s*=\s*true", allow))
+    from_map = bool(re.search(r"result\s*=\s*len\(allowedFields\)\s*>\s*0", allow))
+    if chk != from_map or (not chk and not re.search(r"result\s*=\s*true", allow)):
+        raise h.Missing(f"{rel}: the Allow branch of checkOperationOnTypeForRoles has a shape the model does not cover")
+    items.append(("acl_grant_checks_field", "bool", "true" if chk else "false", rel + " checkOperationOnTypeForRoles, Allow branch"))
+    # RecursiveRoleAncestors: per-workspace recursion (as found) or one closure with a visited set
+    rel = "pkg/appdef/acl/provide.go"
+    body = h.func_body(rel, r"^func RecursiveRoleAncestors\(", "RecursiveRoleAncestors")
+    rec = "RecursiveRoleAncestors(r, ws)" in body and "RecursiveRoleAncestors(role, w)" in body
+    clo = "RecursiveRoleAncestors(" not in body and re.search(r"if\s+roles\.Contains\(r\.QName\(\)\)\s*\{\s*return", body) is not None
+    if rec == clo:
+        raise h.Missing(f"{rel}: RecursiveRoleAncestors has a shape the model does not cover")
+    items.append(("acl_rra_closure", "bool", "true" if clo else "false", rel + " RecursiveRoleAncestors"))
     # system fields recognised by IsSysField (the harness numbers them 0..4 in this order)
     rel = "pkg/appdef/utils_field.go"
     fb = h.func_body(rel, r"^func IsSysField\(", "IsSysField")
